@@ -294,7 +294,7 @@ func GuardedAccesses(p *Prog, g *Guard) []Access {
 				for _, op := range i.Operands(ops) {
 					if gl, ok := (*op).(*ssa.Global); ok && Rel(gl.Pkg.Pkg.Path())+"."+gl.Name() == g.Field {
 						out = append(out, Access{fn, i, "access to " + g.Field})
-						if ld, ok := i.(*ssa.UnOp); ok {
+						if ld, ok := i.(*ssa.UnOp); ok && isRefType(ld.Type()) && !swappedOut(ld, gl) {
 							out = append(out, usesOf(fn, ld, g.Field)...)
 						}
 					}
@@ -307,7 +307,7 @@ func GuardedAccesses(p *Prog, g *Guard) []Access {
 			out = append(out, Access{fn, i, "address of " + g.Type + "." + g.Field})
 			for _, r := range Refs(addr) {
 				out = append(out, Access{fn, r, "use of " + g.Type + "." + g.Field})
-				if ld, ok := r.(*ssa.UnOp); ok && ld.Op == token.MUL {
+				if ld, ok := r.(*ssa.UnOp); ok && ld.Op == token.MUL && isRefType(ld.Type()) && !swappedOut(ld, addr) {
 					out = append(out, usesOf(fn, ld, g.Type+"."+g.Field)...)
 				}
 			}
@@ -328,4 +328,58 @@ func usesOf(fn *ssa.Function, v ssa.Value, what string) []Access {
 		}
 	}
 	return out
+}
+
+// isRefType: values of these types alias the shared object after being
+// loaded; copies of strings, numbers and booleans do not.
+func isRefType(t types.Type) bool {
+	switch t.Underlying().(type) {
+	case *types.Map, *types.Pointer, *types.Slice, *types.Chan, *types.Interface, *types.Signature:
+		return true
+	}
+	return false
+}
+
+// swappedOut recognises the ownership-transfer idiom
+//
+//	mu.Lock(); old := shared; shared = make(...); mu.Unlock(); use(old)
+//
+// the loaded value is private once a fresh object has been stored to the same
+// place later in the same block (the same critical section is established by
+// the lockset check on both the load and the store).
+func swappedOut(ld *ssa.UnOp, place ssa.Value) bool {
+	b := ld.Block()
+	after := false
+	for _, i := range b.Instrs {
+		if i == ssa.Instruction(ld) {
+			after = true
+			continue
+		}
+		if !after {
+			continue
+		}
+		if _, op := lockOp(i); op < 0 {
+			return false // critical section ended before the swap
+		}
+		if st, ok := i.(*ssa.Store); ok && samePlace(st.Addr, place) {
+			switch Peel(st.Val).(type) {
+			case *ssa.MakeMap, *ssa.MakeSlice, *ssa.MakeChan, *ssa.Alloc:
+				return true
+			}
+			return false
+		}
+	}
+	return false
+}
+
+func samePlace(a, b ssa.Value) bool {
+	if a == b {
+		return true
+	}
+	fa, ok1 := a.(*ssa.FieldAddr)
+	fb, ok2 := b.(*ssa.FieldAddr)
+	if ok1 && ok2 {
+		return fa.Field == fb.Field && fa.X == fb.X
+	}
+	return false
 }
